@@ -303,9 +303,9 @@ GENERIC_FILES = ['permuta/patterns/meshpatt.py', 'permuta/patterns/bivincularpat
 
 
 def variants():
-    from ..selftest import generic_silent
+    from ..selftest import generic_equiv, generic_silent
 
-    return _variants() + generic_silent(GENERIC_FILES)
+    return _variants() + generic_silent(GENERIC_FILES) + generic_equiv(GENERIC_FILES)
 
 
 def _variants():
